@@ -10,7 +10,7 @@ import (
 	"verif/harness/internal/simkit"
 )
 
-const commonRule = "rapid-generated histories of 1-3 protocol-following NFSv4.1 client simulators (client IDs, CREATE_SESSION sequence IDs, session IDs, slot sequence IDs, state IDs and file handles are taken from replies only) against the real NewNFS41Program + OpenedFilesPool + NFS handle allocator + in-memory prepopulated directory with counting leaves, inside testing/synctest: every COMPOUND runs in its own goroutine, leaf I/O and VirtualOpenChild can park and are released by generated actions, synctest.Wait after every action, simulated clock. Actions: EXCHANGE_ID (same/new verifier), CREATE_SESSION (next/replay/misordered), DESTROY_SESSION, DESTROY_CLIENTID, orderly shutdown, OPEN (CLAIM_NULL all create modes, CLAIM_FH, CLAIM_PREVIOUS with/without open state of that owner and with every delegate type, the four delegation claims, share_deny 1..3 and undefined values; R/W/RW), OPEN_DOWNGRADE, CLOSE, LOCK (new/existing lock-owner), LOCKT, LOCKU, FREE_STATEID, TEST_STATEID, READ/WRITE/SETATTR (open, lock, anonymous, read-bypass state IDs), REMOVE, RENAME (also over an open file, via PUTROOTFH and via PUTFH), LINK (also of open and of unlinked-but-open files), LOOKUP, PUTFH probes, RECLAIM_COMPLETE, DESTROY_SESSION/DESTROY_CLIENTID inside SEQUENCE, clock advances around the lease time, state-ID deviations (seqid 0/old/future, other file, other client, dead, wrong kind, garbage), retransmissions, duplicates of in-flight requests, false retries, misordered sequence IDs, bad slots and sessions; one-shot injected failures (EIO/EACCES/ENOENT) of VirtualOpenChild, VirtualOpenSelf, file allocation, VirtualRead/VirtualWrite (after the park) and VirtualSetAttributes; initial CREATE_SESSION sequence IDs at 2^32-3..2^32-1 and 0; an observer client that LOCKTs every unit x {READ, WRITE} of the files touched by a release (always in the C20 profile, 10% elsewhere, and always once before the final lease expiry); final drain: release everything, all leases expire, one more call. "
+const commonRule = "rapid-generated histories of 1-3 protocol-following NFSv4.1 client simulators (client IDs, CREATE_SESSION sequence IDs, session IDs, slot sequence IDs, state IDs and file handles are taken from replies only) against the real NewNFS41Program + OpenedFilesPool + NFS handle allocator + in-memory prepopulated directory with counting leaves, inside testing/synctest: every COMPOUND runs in its own goroutine, leaf I/O and VirtualOpenChild can park and are released by generated actions, synctest.Wait after every action, simulated clock. Actions: EXCHANGE_ID (same/new verifier), CREATE_SESSION (next/replay/misordered), DESTROY_SESSION, DESTROY_CLIENTID, orderly shutdown, OPEN (CLAIM_NULL all create modes, CLAIM_FH, CLAIM_PREVIOUS with/without open state of that owner and with every delegate type, the four delegation claims, share_deny 1..3 and undefined values; R/W/RW), OPEN_DOWNGRADE, CLOSE, LOCK (new/existing lock-owner), LOCKT, LOCKU, FREE_STATEID, TEST_STATEID, READ/WRITE/SETATTR (open, lock, anonymous, read-bypass state IDs), REMOVE, RENAME (also over an open file, via PUTROOTFH and via PUTFH), LINK (also of open and of unlinked-but-open files), LOOKUP, PUTFH probes, RECLAIM_COMPLETE, DESTROY_SESSION/DESTROY_CLIENTID inside SEQUENCE, clock advances around the lease time, state-ID deviations (seqid 0/old/future, other file, other client, dead, wrong kind, garbage), retransmissions, duplicates of in-flight requests, false retries, misordered sequence IDs, bad slots and sessions; one-shot injected failures (EIO/EACCES/ENOENT) of VirtualOpenChild, VirtualOpenSelf, file allocation, VirtualRead/VirtualWrite (after the park) and VirtualSetAttributes; initial CREATE_SESSION sequence IDs at 2^32-3..2^32-1 and 0; preset_slot: the last sequence ID of an idle slot is placed at 2^32-3..2^32-1 or 0 through the hook VerifSetSlotSequenceID (what 2^32 requests on the slot would have done; the model then treats the slot as one without a cached reply), after which new requests, retransmissions, in-flight duplicates, false retries and misordered sequence IDs are aimed at that slot 60% of the time, so that they straddle the wrap-around 2^32-1 -> 0; preset_stateid_seqid: the seqid of a live open or lock state ID of a client without a request in flight is placed at 2^32-3..2^32-1 through VerifSetStateIDSeqID, after which OPEN upgrades, OPEN_DOWNGRADE, LOCK, LOCKU, CLOSE, FREE_STATEID, TEST_STATEID and I/O prefer that state ID, the model bumps the seqid as incrementSeqID documents (1 follows 2^32-1, 0 is skipped) and the old/future deviations step back/forward through the same cycle; an observer client that LOCKTs every unit x {READ, WRITE} of the files touched by a release (always in the C20 profile, 10% elsewhere, and always once before the final lease expiry); final drain: release everything, all leases expire, one more call. "
 
 func c18Profile() *profile {
 	return &profile{
@@ -57,6 +57,8 @@ func c18Profile() *profile {
 			"replay":                 2,
 			"misordered":             1,
 			"bad_session":            1,
+			"preset_stateid_seqid":   3,
+			"preset_slot":            1,
 		}),
 		oracle:   map[string]bool{"acct": true},
 		parkPct:  35,
@@ -113,6 +115,8 @@ func c19Profile() *profile {
 			"stale_busy":            2,
 			"bad_slot":              2,
 			"bad_session":           1,
+			"preset_slot":           4,
+			"preset_stateid_seqid":  2,
 		}),
 		oracle:   map[string]bool{"acct": true},
 		parkPct:  50,
@@ -183,7 +187,7 @@ func runProperty(t *testing.T, p *profile, rec *simkit.Recorder) {
 
 func TestC18NFS41StateAccounting(t *testing.T) {
 	rec := simkit.NewRecorder(t, "C18", "nfs41_state_accounting", commonRule+
-		"ORACLE: per counting leaf and share bit closes <= opens at all times and no VirtualRead/VirtualWrite while that bit's count is 0 (checked inside the leaf, at the start and at the end of every I/O call); at every quiescence the outstanding open count per leaf and bit equals what the replies imply is held (open state per open-owner incl. upgrades/downgrades, share access cloned into lock state, parked I/O, OPENs parked after VirtualOpenChild), VerifStateCounts == model (clients, incarnations, sessions, hold count, idle list, open-owners, open-owner files, lock-owner files), opened-files pool == files with open state, all locks free; every operation's status == reference model of state-ID resolution in the requesting client's own namespace (RFC 8881 8.2: other file/foreign/dead => BAD_STATEID, old seqid => OLD_STATEID, future => BAD_STATEID) with the model unchanged on rejection; PUTFH of a file without names (after REMOVE of the last name or RENAME over it) succeeds and I/O through its state IDs works while open state exists, and is NFS4ERR_STALE afterwards; a request in which an injected failure fired fails at that operation with the NFSv4 equivalent of the injected status and changes neither the model nor any count (a failed or refused OPEN leaves no open behind: CLAIM_PREVIOUS refused after the leaf was opened must close it again); delegation claims and share_deny are refused with all counters unchanged; after all leases expired + one call everything is zero. "+
+		"ORACLE: per counting leaf and share bit closes <= opens at all times and no VirtualRead/VirtualWrite while that bit's count is 0 (checked inside the leaf, at the start and at the end of every I/O call); at every quiescence the outstanding open count per leaf and bit equals what the replies imply is held (open state per open-owner incl. upgrades/downgrades, share access cloned into lock state, parked I/O, OPENs parked after VirtualOpenChild), VerifStateCounts == model (clients, incarnations, sessions, hold count, idle list, open-owners, open-owner files, lock-owner files), opened-files pool == files with open state, all locks free; every operation's status == reference model of state-ID resolution in the requesting client's own namespace (RFC 8881 8.2: other file/foreign/dead => BAD_STATEID, old seqid => OLD_STATEID, future => BAD_STATEID, also when the seqid has wrapped from 2^32-1 to 1: label stateid_seqid_wrapped) with the model unchanged on rejection; every state ID returned by OPEN of an already open file, OPEN_DOWNGRADE, LOCK and LOCKU carries the successor of the previous seqid (1 after 2^32-1, never 0); PUTFH of a file without names (after REMOVE of the last name or RENAME over it) succeeds and I/O through its state IDs works while open state exists, and is NFS4ERR_STALE afterwards; a request in which an injected failure fired fails at that operation with the NFSv4 equivalent of the injected status and changes neither the model nor any count (a failed or refused OPEN leaves no open behind: CLAIM_PREVIOUS refused after the leaf was opened must close it again); delegation claims and share_deny are refused with all counters unchanged; after all leases expired + one call everything is zero. "+
 		"NON-TRIVIAL: an upgrade or downgrade happened, lock state was created, and state was reclaimed by lease expiry or re-registration. Distinct by script hash")
 	runProperty(t, c18Profile(), rec)
 }
@@ -194,7 +198,7 @@ func TestC19NFS41ExactlyOnce(t *testing.T) {
 		p.excludeDup = true
 	}
 	rec := simkit.NewRecorder(t, "C19", "nfs41_exactly_once", commonRule+
-		"ORACLE: slot model per (session, slot): sequence == last => the reply must be XDR-byte-equal to the original's (or, when the original was sent without sa_cachethis and had >= 2 results, the documented NFS4ERR_RETRY_UNCACHED_REP form) and leaf open/close/I-O counters, file count, root change ID and VerifStateCounts must not move; a duplicate that arrives while the original is parked must not be answered before the original completes and must complete, in the same quiescence as the original, with the original's result; a different operation list under the same slot+sequence => NFS4ERR_SEQ_FALSE_RETRY where the difference is in the number or types of operations covered by the cached reply (as the upstream FalseRetries tests document), otherwise either that or the original's cached reply, never executed; sequence neither last nor last+1 => NFS4ERR_SEQ_MISORDERED without side effects; bad slot / unknown session => BADSLOT / BADSESSION; CREATE_SESSION with the previous sequence => byte-equal reply and no second session, other sequence => SEQ_MISORDERED; every executed request is checked against the C18 model as well. "+
+		"ORACLE: slot model per (session, slot): sequence == last => the reply must be XDR-byte-equal to the original's (or, when the original was sent without sa_cachethis and had >= 2 results, the documented NFS4ERR_RETRY_UNCACHED_REP form) and leaf open/close/I-O counters, file count, root change ID and VerifStateCounts must not move; a duplicate that arrives while the original is parked must not be answered before the original completes and must complete, in the same quiescence as the original, with the original's result; a different operation list under the same slot+sequence => NFS4ERR_SEQ_FALSE_RETRY where the difference is in the number or types of operations covered by the cached reply (as the upstream FalseRetries tests document), otherwise either that or the original's cached reply, never executed; sequence neither last nor last+1 (32 bit arithmetic: 0 follows 2^32-1) => NFS4ERR_SEQ_MISORDERED without side effects; all of this also on slots whose sequence ID was preset just below 2^32 (labels slot_sequence_wrapped, replay_at_wrap_around, misordered_at_wrap_around, inflight_duplicate_at_wrap_around, false_retry_at_wrap_around); bad slot / unknown session => BADSLOT / BADSESSION; CREATE_SESSION with the previous sequence => byte-equal reply and no second session, other sequence => SEQ_MISORDERED; every executed request is checked against the C18 model as well. "+
 		"NON-TRIVIAL: a retransmission of a successful OPEN/CLOSE/LOCK/LOCKU/OPEN_DOWNGRADE/FREE_STATEID compound was answered from the cache AND a duplicate of an in-flight request completed with the original's result. Distinct by script hash")
 	runProperty(t, p, rec)
 }
@@ -252,7 +256,7 @@ func TestC14NFS41LocksReleased(t *testing.T) {
 		return l["fault_fired"] > 0 && n >= 4
 	}
 	rec := simkit.NewRecorder(t, "C14", "nfs41_locks_released", commonRule+
-		"Generator of nfs41_state_accounting (incl. OPEN with every claim type and share_deny, RENAME, LINK) with one-shot injected failures of VirtualOpenChild, VirtualOpenSelf, file allocation, VirtualRead, VirtualWrite, VirtualSetAttributes in 30% of the requests that can reach them and 30% state-ID deviations, so that the error returns of the operations are reached (labelled error_return:<operation>:<status>). ORACLE after every request, at quiescence (every request of the case has returned or is parked inside the leaf / before or after VirtualOpenChild, i.e. outside of all locks of the program): VerifStateCounts can take nfs41Program.clientsLock and the lock of every client incarnation without a request in flight, VerifOpenedCount/VerifUseCount can take OpenedFilesPool.lock and every OpenedFile.locksLock, VerifNFSHandlePoolLockIsFree holds (all TryLock probes); every request that is not parked has returned (a request that blocks on a leaked mutex makes the case hang, which a real-time watchdog outside the bubble reports as VERIF-VIOLATION after 45 s); all oracles of nfs41_state_accounting stay armed. "+
+		"Generator of nfs41_state_accounting (incl. OPEN with every claim type and share_deny, RENAME, LINK) with one-shot injected failures of VirtualOpenChild, VirtualOpenSelf, file allocation, VirtualRead, VirtualWrite, VirtualSetAttributes in 30% of the requests that can reach them and 30% state-ID deviations, so that the error returns of the operations are reached (labelled error_return:<operation>:<status>). ORACLE after every request, at quiescence (every request of the case has returned or is parked inside the leaf / before or after VirtualOpenChild, i.e. outside of all locks of the program): VerifStateCounts can take nfs41Program.clientsLock and the lock of every client incarnation without a request in flight, VerifClientLocksFree can take the lock of every client incarnation including those with requests in flight (the harness parks requests only inside leaf I/O and around VirtualOpenChild, which the program calls without a client incarnation lock), VerifOpenedCount/VerifUseCount can take OpenedFilesPool.lock and every OpenedFile.locksLock, VerifNFSHandlePoolLockIsFree holds (all TryLock probes); every request that is not parked has returned (a request that blocks on a leaked mutex makes the case hang, which a real-time watchdog outside the bubble reports as VERIF-VIOLATION after 45 s); all oracles of nfs41_state_accounting stay armed. "+
 		"NON-TRIVIAL: an injected fault fired and error returns of at least four distinct (operation, status) kinds were reached. Distinct by script hash")
 	runProperty(t, p, rec)
 }
